@@ -1305,6 +1305,165 @@ pub fn fam_planted_sched(seed: u64, tier: &str, index: u64) -> Scenario {
     Scenario { fam: "planted_sched".into(), id: index, opts, steps: g.steps, engine: false }
 }
 
+/// `planted_eq` (C02, C07): random 3-literal clauses over `==` / `!=` predicates on distinct
+/// variables, every clause true under a planted assignment, heavily over-constrained (6-12 clauses
+/// per variable) so that search runs into hundreds of conflicts: 16 variables x 4 values or 20 x 3
+/// with tiny learned-nogood limits (the database is cleaned up every few conflicts while nogoods
+/// asserting equalities - two trail entries - are reasons on the trail), and, rarely, 100-150
+/// variables under the default options (clean-up after 4 000 nogoods). Value selectors that decide
+/// by removing values. The planted assignment refutes `Unsatisfiable` and may not be excluded by
+/// any learned nogood.
+pub fn fam_planted_eq(seed: u64, tier: &str, index: u64) -> Scenario {
+    let mut g = Gen::new(rng_for(seed, "planted_eq", index), params(tier));
+    let (n, k, m, big) = match index % 16 {
+        7 => {
+            let n = g.rng.gen_range(100..=150usize);
+            (n, 2, (n as f64 * 6.4) as usize, true)
+        }
+        x if x % 2 == 0 => (16usize, 3, g.rng.gen_range(150..=200usize), false),
+        _ => (20usize, 2, g.rng.gen_range(120..=150usize), false),
+    };
+    let mut witness: Vec<i32> = vec![1];
+    let mut vars: Vec<u32> = vec![];
+    for _ in 0..n {
+        let v = g.add_int_var_with((0..=k).collect(), false);
+        witness.push(g.rng.gen_range(0..=k));
+        vars.push(v);
+    }
+    let mut posted = 0;
+    while posted < m {
+        let mut picked: Vec<u32> = vars.clone();
+        picked.shuffle(&mut g.rng);
+        let ps: Vec<Pred> = picked
+            .iter()
+            .take(3)
+            .map(|v| Pred {
+                x: View::var(*v),
+                op: if g.rng.gen_bool(0.5) { Op::Eq } else { Op::Ne },
+                k: g.rng.gen_range(0..=k),
+            })
+            .collect();
+        // only clauses that hold under the planted assignment are kept
+        let holds = ps.iter().any(|p| {
+            let val = witness[(p.x.v - 1) as usize];
+            if p.op == Op::Eq { val == p.k } else { val != p.k }
+        });
+        if holds {
+            g.post(Cons::Clause { ps }, false);
+            posted += 1;
+        }
+    }
+    g.steps.push(Step::Witness { vals: witness });
+    let br = match g.rng.gen_range(0..4) {
+        0 | 1 => BrSpec { kind: "indep".into(), var: 2, val: 11 },      // input order / out-domain random
+        2 => BrSpec { kind: "indep".into(), var: 2, val: g.rng.gen_range(8..=11) },
+        _ => BrSpec { kind: "indep".into(), var: g.rng.gen_range(0..NUM_VAR_SEL), val: g.rng.gen_range(0..NUM_VAL_SEL) },
+    };
+    g.steps.push(Step::Satisfy { br, stop_at: None });
+    let mut opts = Opts { seed: g.rng.gen_range(0..1000), ..Opts::default() };
+    if !big {
+        opts.high_lbd_limit = g.rng.gen_range(0..=6);
+        opts.lbd_threshold = g.rng.gen_range(0..=2);
+        opts.sorting = if g.rng.gen_bool(0.5) { "lbd".into() } else { "activity".into() };
+        opts.minimise = g.rng.gen_bool(0.7);
+    }
+    Scenario { fam: "planted_eq".into(), id: index, opts, steps: g.steps, engine: false }
+}
+
+/// `iterate2` (C03): the model of an `iterate` scenario enumerated twice on the same solver. The
+/// first enumeration ends through a root-level conflict found by search; whatever the second one
+/// yields has to be a solution again (it yields nothing while the blocking clauses of the first
+/// stay behind - the open finding F2 - but never a non-solution).
+pub fn fam_iterate2(seed: u64, tier: &str, index: u64) -> Scenario {
+    let mut g = Gen::new(rng_for(seed, "iterate2", index), params(tier));
+    g.p.max_space = g.p.max_space.min(300);
+    let ncons = g.rng.gen_range(1..=g.p.max_cons);
+    g.build_model(ncons, false);
+    for _ in 0..2 {
+        let br = g.random_brancher();
+        g.steps.push(Step::Iterate { br, max: 100000, stop_at: None, resume: false });
+    }
+    if g.rng.gen_bool(0.3) {
+        let br = g.random_brancher();
+        g.steps.push(Step::Satisfy { br, stop_at: None });
+    }
+    let opts = g.random_opts();
+    Scenario { fam: "iterate2".into(), id: index, opts, steps: g.steps, engine: index % 4 == 0 }
+}
+
+/// `eqdecide` (C02): one or two variables with wide domains decided by EQUALITY decisions in the
+/// middle of their domains (median / middle / random value selectors: an equality decision is two
+/// trail entries, `[x >= v]` and `[x <= v]`), 2-3 zero-one variables, and clauses over bound
+/// predicates with constants around the middle - conflicts mention predicates that are merely
+/// implied by one half of the decision. Input order, all solutions iterated, every engine event
+/// recorded (each learned nogood is judged against Sol(M)).
+pub fn fam_eqdecide(seed: u64, tier: &str, index: u64) -> Scenario {
+    let mut g = Gen::new(rng_for(seed, "eqdecide", index), params(tier));
+    let nwide = if g.rng.gen_bool(0.6) { 1 } else { 2 };
+    let mut wide: Vec<(u32, i32)> = vec![];
+    for _ in 0..nwide {
+        let u = g.rng.gen_range(5..=if nwide == 1 { 12 } else { 8 });
+        let lo = g.rng.gen_range(-2..=1);
+        let v = g.add_int_var_with((lo..=lo + u).collect(), false);
+        wide.push((v, lo + u / 2));
+    }
+    let nb = g.rng.gen_range(2..=3);
+    let bools: Vec<u32> = (0..nb).map(|_| g.add_int_var_with(vec![0, 1], false)).collect();
+    let ncl = g.rng.gen_range(4..=9);
+    for _ in 0..ncl {
+        let mut ps: Vec<Pred> = vec![];
+        // one or two bound predicates around the middle of a wide variable
+        for _ in 0..g.rng.gen_range(1..=2) {
+            let (v, mid) = wide[g.rng.gen_range(0..wide.len())];
+            let c = mid + g.rng.gen_range(-2..=2);
+            let op = if g.rng.gen_bool(0.5) { Op::Ge } else { Op::Le };
+            ps.push(Pred { x: View::var(v), op, k: c });
+        }
+        for _ in 0..g.rng.gen_range(0..=1) {
+            let b = bools[g.rng.gen_range(0..bools.len())];
+            let val = g.rng.gen_range(0..=1);
+            ps.push(Pred { x: View::var(b), op: if val == 1 { Op::Ge } else { Op::Le }, k: val });
+        }
+        g.post(Cons::Clause { ps }, false);
+    }
+    // windows around the middle that force contradictory values of one zero-one variable: the
+    // conflict mentions `[x >= c1]` and `[x <= c2]` with c1 < v < c2 for a decision `[x == v]`
+    if g.rng.gen_bool(0.7) {
+        let (v, mid) = wide[g.rng.gen_range(0..wide.len())];
+        let b = bools[g.rng.gen_range(0..bools.len())];
+        let (a1, b1) = (mid - g.rng.gen_range(0..=1), mid + g.rng.gen_range(0..=1));
+        let (a2, b2) = (a1 - g.rng.gen_range(0..=2), b1 + g.rng.gen_range(0..=2));
+        let window = |lo: i32, hi: i32, val: i32| Cons::Clause {
+            ps: vec![
+                Pred { x: View::var(v), op: Op::Le, k: lo - 1 },
+                Pred { x: View::var(v), op: Op::Ge, k: hi + 1 },
+                Pred { x: View::var(b), op: if val == 1 { Op::Ge } else { Op::Le }, k: val },
+            ],
+        };
+        let first = g.rng.gen_range(0..=1);
+        g.post(window(a1, b1, first), false);
+        g.post(window(a2, b2, 1 - first), false);
+    }
+    // both values of a zero-one variable refute the lower part of a wide variable (found by
+    // propagation only)
+    if g.rng.gen_bool(0.6) {
+        let (v, mid) = wide[0];
+        let c = mid - g.rng.gen_range(0..=2);
+        let b = bools[0];
+        g.post(Cons::Clause { ps: vec![Pred { x: View::var(v), op: Op::Ge, k: c }, Pred { x: View::var(b), op: Op::Ge, k: 1 }] }, false);
+        g.post(Cons::Clause { ps: vec![Pred { x: View::var(v), op: Op::Ge, k: c }, Pred { x: View::var(b), op: Op::Le, k: 0 }] }, false);
+    }
+    let val = *[2u8, 3, 5, 2, 3, 7, 12].choose(&mut g.rng).unwrap();
+    let br = BrSpec { kind: "indep".into(), var: 2, val };
+    g.steps.push(Step::Iterate { br, max: 100000, stop_at: None, resume: false });
+    let mut opts = if g.rng.gen_bool(0.5) { Opts::default() } else { g.random_opts() };
+    opts.resolver = "uip".into();
+    if opts.restart_base <= 3 && opts.high_lbd_limit <= 4 {
+        opts.high_lbd_limit = 4000;
+    }
+    Scenario { fam: "eqdecide".into(), id: index, opts, steps: g.steps, engine: true }
+}
+
 /// `reif`: one constraint of the catalogue (index-driven kind) posted half-reified, reified or
 /// negated, with the reification literal free / forced before / forced after posting, all
 /// solutions iterated (C09).
@@ -2115,6 +2274,9 @@ pub fn generate(fam: &str, seed: u64, tier: &str, index: u64) -> Scenario {
         "planted_chain" => fam_planted_chain(seed, tier, index),
         "planted_queens" => fam_planted_queens(seed, tier, index),
         "planted_sched" => fam_planted_sched(seed, tier, index),
+        "planted_eq" => fam_planted_eq(seed, tier, index),
+        "iterate2" => fam_iterate2(seed, tier, index),
+        "eqdecide" => fam_eqdecide(seed, tier, index),
         "rootbounds" => fam_rootbounds(seed, tier, index),
         "interrupt_base" => fam_interrupt_base(seed, tier, index),
         other => panic!("harness: unknown family {other}"),
